@@ -153,7 +153,9 @@ def run_comp(case):
     else:
         spec = S.rand_live(case["spec_seed"], allow_advance=rnd.random() < 0.5)
         try:
-            ex = C.record_experiment(spec, lengths=[rnd.randint(4, 7), rnd.randint(8, 11)], init_seed=case["spec_seed"], trace="io")
+            lens = [rnd.randint(4, 7), rnd.randint(8, 11)] + ([rnd.randint(5, 9)] if rnd.random() < 0.4 else [])
+            rnd.shuffle(lens)  # the shortest episode is not always the first one
+            ex = C.record_experiment(spec, lengths=lens, init_seed=case["spec_seed"], trace="io")
         except (C.Rejected, C.D.Stall) as e:
             return dict(items=[dict(status="rejected", key=S.digest(spec), nontrivial=False, note=str(e)[:120])], counters={})
         nodes, sup, gs0 = ex["nodes"], ex["sup"], ex["gs0"]
